@@ -8,26 +8,36 @@ import (
 	"net/http/httptest"
 	"strings"
 	"sync"
-
-	c "github.com/buzzfeed/sso/internal/zz_verif/common"
 )
 
-// hbackend is a recording upstream that files what it received under the request's X-Verif-Id and can
+// received is what the upstream's HANDLER saw: r.Header after the server's own processing, r.Proto.
+type received struct {
+	Proto  string
+	Method string
+	Host   string
+	URI    string
+	Header http.Header
+	Body   []byte
+}
+
+// hbackend is a recording upstream — plain http, https (HTTP/1.1 only) or https offering h2 by
+// ALPN — that files what it received under the request's X-Verif-Id and can
 // HOLD a request: the handler is entered (headers received) but the body is not read — so, for a
 // request sent with `Expect: 100-continue`, not even asked for — until the driver releases it. That
 // keeps a signed request in flight inside the proxy while other requests are signed.
 type hbackend struct {
 	Srv   *httptest.Server
 	mu    sync.Mutex
-	seen  map[string][]c.RecordedRequest
+	seen  map[string][]received
+	Mode  string // "http", "https", "h2"
 	holds map[string]*hold
 }
 
 type hold struct{ entered, release chan struct{} }
 
-func newBackend() *hbackend {
-	b := &hbackend{seen: map[string][]c.RecordedRequest{}, holds: map[string]*hold{}}
-	b.Srv = httptest.NewServer(http.HandlerFunc(func(w http.ResponseWriter, r *http.Request) {
+func newBackend(mode string) *hbackend {
+	b := &hbackend{seen: map[string][]received{}, holds: map[string]*hold{}, Mode: mode}
+	b.Srv = httptest.NewUnstartedServer(http.HandlerFunc(func(w http.ResponseWriter, r *http.Request) {
 		id := r.Header.Get("X-Verif-Id")
 		b.mu.Lock()
 		h := b.holds[id]
@@ -39,11 +49,20 @@ func newBackend() *hbackend {
 		}
 		body, _ := ioutil.ReadAll(r.Body)
 		b.mu.Lock()
-		b.seen[id] = append(b.seen[id], c.RecordedRequest{Method: r.Method, Host: r.Host, URI: r.RequestURI, Header: r.Header.Clone(), Body: body})
+		b.seen[id] = append(b.seen[id], received{Proto: r.Proto, Method: r.Method, Host: r.Host, URI: r.RequestURI, Header: r.Header.Clone(), Body: body})
 		b.mu.Unlock()
 		w.WriteHeader(200)
 		w.Write([]byte("backend"))
 	}))
+	switch mode {
+	case "https":
+		b.Srv.StartTLS()
+	case "h2":
+		b.Srv.EnableHTTP2 = true
+		b.Srv.StartTLS()
+	default:
+		b.Srv.Start()
+	}
 	return b
 }
 
@@ -55,7 +74,7 @@ func (b *hbackend) Hold(id string) *hold {
 	return h
 }
 
-func (b *hbackend) Take(id string) []c.RecordedRequest {
+func (b *hbackend) Take(id string) []received {
 	b.mu.Lock()
 	defer b.mu.Unlock()
 	s := b.seen[id]
@@ -63,4 +82,6 @@ func (b *hbackend) Take(id string) []c.RecordedRequest {
 	return s
 }
 
-func (b *hbackend) HostPort() string { return strings.TrimPrefix(b.Srv.URL, "http://") }
+func (b *hbackend) HostPort() string {
+	return strings.TrimPrefix(strings.TrimPrefix(b.Srv.URL, "https://"), "http://")
+}
